@@ -47,7 +47,7 @@ var wordPool = []string{"", "a", "b", "c", "ab", "bc", "abc", "A", "Ab", "aa", "
 var extremeInts = []string{"9000000000000000000", "-9000000000000000000", "9223372036854775807", "-9223372036854775808",
 	"4611686018427387904", "-4611686018427387905", "1099511627776", "-2147483649"}
 
-func genValue(t *rapid.T, kind StoreKind, extreme bool) string {
+func genValue(t *rapid.T, kind StoreKind, extreme, inexactFloats bool) string {
 	switch kind {
 	case KInt:
 		if extreme && rapid.IntRange(0, 2).Draw(t, "intExtreme") == 0 {
@@ -58,6 +58,9 @@ func genValue(t *rapid.T, kind StoreKind, extreme bool) string {
 		}
 		return strconv.Itoa(rapid.IntRange(0, 12).Draw(t, "ival"))
 	case KFloat:
+		if inexactFloats && rapid.IntRange(0, 2).Draw(t, "floatInexact") == 0 {
+			return rapid.SampledFrom([]string{"0.1", "0.3", "0.7", "2.675", "1.1", "0.2"}).Draw(t, "finexact")
+		}
 		return rapid.SampledFrom(quarterTexts).Draw(t, "fval")
 	case KWord:
 		return rapid.SampledFrom(wordPool).Draw(t, "wval")
@@ -98,9 +101,12 @@ func GenStore(t *rapid.T, kind StoreKind, n int) []Pair {
 	exotic := rapid.IntRange(0, 7).Draw(t, "exoticKeys") == 0
 	m := map[string]string{}
 	extreme := kind == KInt && rapid.IntRange(0, 5).Draw(t, "extremeValues") == 0
+	// one float store in four holds values that are not exactly representable
+	// (0.1, 0.3): (x * 3) * 7 and x * 21 differ in the last place for them
+	inexact := kind == KFloat && rapid.IntRange(0, 3).Draw(t, "inexactValues") == 0
 	for i := 0; i < n; i++ {
 		k := genKey(t, exotic, n > 20)
-		m[k] = genValue(t, kind, extreme)
+		m[k] = genValue(t, kind, extreme, inexact)
 	}
 	ret := make([]Pair, 0, len(m))
 	for k, v := range m {
@@ -362,6 +368,28 @@ func (c *GenCtx) GenNum(t *rapid.T, depth int) *Node {
 	return c.GenInt(t, depth)
 }
 
+// NumberLiteral writes a non-negative number down as a literal that reads
+// back as exactly that number of that kind (nil when it cannot be written).
+func NumberLiteral(v any) *Node {
+	switch x := v.(type) {
+	case int64:
+		if x >= 0 {
+			return Int(x)
+		}
+	case float64:
+		if x >= 0 && x < 1e15 {
+			t := strconv.FormatFloat(x, 'f', -1, 64)
+			if !strings.Contains(t, ".") {
+				t += ".0"
+			}
+			if len(t) <= 22 {
+				return Float(t)
+			}
+		}
+	}
+	return nil
+}
+
 func isBareField(n *Node, k string) bool { return n.K == k }
 
 // KeyAtom draws an atom that constrains the key by a literal (literal on
@@ -511,7 +539,19 @@ func (c *GenCtx) GenBool(t *rapid.T, depth int) *Node {
 		return Bin("~=", c.GenText(t, depth-1), Str(rapid.SampledFrom(regexPool).Draw(t, "regex")))
 	case 4: // numeric comparison
 		op := rapid.SampledFrom([]string{"=", "!=", "<", "<=", ">", ">="}).Draw(t, "numCmpOp")
-		return Bin(op, c.GenNum(t, depth-1), c.GenNum(t, depth-1))
+		l := c.GenNum(t, depth-1)
+		if len(c.Pairs) > 0 && rapid.IntRange(0, 2).Draw(t, "boundaryLiteral") == 0 {
+			// on the boundary: compare with the value the left side has on one
+			// of the stored pairs (a result that is off by one unit in the
+			// last place changes the rows selected)
+			p := rapid.SampledFrom(c.Pairs).Draw(t, "boundaryPair")
+			if v, err := Eval(l, &Env{K: p.K, V: p.V, Defs: c.Defs}); err == nil {
+				if lit := NumberLiteral(v); lit != nil {
+					return Bin(op, l, lit)
+				}
+			}
+		}
+		return Bin(op, l, c.GenNum(t, depth-1))
 	case 5: // in
 		if rapid.Bool().Draw(t, "inNumeric") {
 			x := c.GenInt(t, depth-1)
